@@ -31,6 +31,9 @@ func (b *blockReader) Read(offset int64, key string) (string, bool) {
 
 // indexEv: mode "get": one offset per key; mode "rget": block offsets shared by
 // `block` adjacent keys.
+// bigIndex marks the cases TLC judges by Layer P only
+var bigIndex bool
+
 func indexEv(keys []string, offs []int64, mode string, block int, qs []string) Ev {
 	br := &blockReader{blocks: map[int64][]int{}, keys: keys}
 	items := make([]index.OffsetIndexItem, len(keys))
@@ -38,7 +41,7 @@ func indexEv(keys []string, offs []int64, mode string, block int, qs []string) E
 		items[i] = index.OffsetIndexItem{Key: k, Offset: offs[i]}
 		br.blocks[offs[i]] = append(br.blocks[offs[i]], i+1)
 	}
-	e := Ev{"ev": "index", "mode": mode, "block": block, "keys": intsList(keys), "qs": intsList(qs), "err": "", "pan": ""}
+	e := Ev{"ev": "index", "big": b2i(bigIndex || len(keys) > 5000), "mode": mode, "block": block, "keys": intsList(keys), "qs": intsList(qs), "err": "", "pan": ""}
 	ov := [][]int{}
 	for _, o := range offs {
 		ov = append(ov, bints(le(uint64(o), 8)))
@@ -181,6 +184,41 @@ func genIndex(t *Tracer, m *Meta, tier string, seed int64) {
 			emit(keys, block, append(append([]string{}, keys...), common, common+"2", "zz"))
 		}
 		m.class("long-shared-run")
+	}
+	// more than 2^16 records (node ids, leaf ordinals and offsets beyond 16 bits): Layer P only
+	// (floor witnesses verified by the spec; the Model is not rebuilt for these)
+	for bi, block := range []int{1, 16} {
+		if quick && bi != int(seed)%2 {
+			continue
+		}
+		set := map[string]bool{}
+		for len(set) < 70000 {
+			set[randBytes(r, 3+r.Intn(7), nil)] = true
+		}
+		keys := make([]string, 0, len(set))
+		for k := range set {
+			keys = append(keys, k)
+		}
+		sort.Strings(keys)
+		qs := []string{"", keys[0], keys[len(keys)-1], keys[len(keys)-1] + "\x00", "\xff\xff\xff\xff\xff\xff\xff\xff\xff\xff\xff"}
+		for j := 0; j < 300; j++ {
+			k := keys[r.Intn(len(keys))]
+			if j > 200 {
+				k = keys[len(keys)-1-r.Intn(500)] // the last records: the largest ordinals
+			}
+			switch j % 4 {
+			case 1:
+				k = k[:r.Intn(len(k)+1)]
+			case 2:
+				k += string([]byte{byte(r.Intn(256))})
+			}
+			qs = append(qs, k)
+		}
+		sort.Strings(qs)
+		bigIndex = true
+		emit(keys, block, uniq(qs))
+		bigIndex = false
+		m.class("large:70000-records")
 	}
 	emit([]string{}, 1, []string{"", "a"})
 	emit([]string{"a"}, 1, []string{"", "a", "b", "a\x00"})
